@@ -5,3 +5,4 @@ import Props.C12
 import Props.C08
 import Props.C07
 import Props.C11
+import Props.C06
